@@ -12,10 +12,10 @@ def strip_conv(t):
     return t
 
 
-def _is_fresh_dot(t, clock=('field', ('param', 1), 'clock')):
-    t = strip_conv(t)
-    # the dot must be the *acting* actor's next dot: the actor argument is a whole parameter of the op constructor
-    return is_call(t, 'inc', self_adt='VClock') and drop_lv(t[2][0]) == clock and versionless(t[2][1])[0] == 'param' and versionless(t[2][1])[1] >= 2
+def _is_fresh_dot(facts, t, clock=('field', ('param', 1), 'clock')):
+    # the dot must be the *acting* actor's next dot: clock.get(actor)+1 with the actor a whole parameter of the op constructor
+    nd = next_dot_of(facts, t)
+    return nd is not None and nd[0] == clock and nd[1][0] == 'param' and nd[1][1] >= 2
 
 
 @rule('LIST-TAG', {
@@ -31,7 +31,7 @@ def list_tag(ctx):
     if r[0] == 'agg' and r[2] == 'Insert':
         idt = dict(r[3]).get('id')
         if is_call(idt, 'between') and len(idt[2]) == 3:
-            ok = _is_fresh_dot(idt[2][2])
+            ok = _is_fresh_dot(facts, idt[2][2])
             msg = 'the identifier marker is %s, expected self.clock.inc(actor)' % fmt(strip_conv(idt[2][2]), 4)
     ctx.check(ok, 'insert_index', body, 'marker = self.clock.inc(actor)', msg)
     body = ctx.inherent(LIST, 'delete_index')
@@ -43,7 +43,7 @@ def list_tag(ctx):
         d = subst(f.get('dot'), {})
         # upvars of the closure were substituted by inline_option_maps
         dd = strip_conv(f['dot'])
-        ok = _is_fresh_dot(f['dot'])
+        ok = _is_fresh_dot(facts, f['dot'])
         idt = versionless(f['id'])
         src_ok = any(param_path(st) == (1, ('seq',)) for st in subterms(idt))
         ok = ok and src_ok
@@ -159,7 +159,7 @@ def _seen_atom(facts, found):
                 return None
             pb = param_path(base) or ('elem', ())
             for clo, m in closure_bindings(e):
-                cb = facts.by_uid.get(clo[1])
+                cb = facts.cb(clo[1])
                 cr = drop_lv(subst(interp(facts, cb).ret, m))
                 if is_call(cr, ('contains_key', 'contains')) and len(cr[2]) == 2 and versionless(cr[2][1])[0] == 'item':
                     pc = param_path(cr[2][0])
@@ -273,7 +273,7 @@ def mk_reexam(ctx):
             base = iter_source(c.args[0].val)[0]
             if param_path(base) == (1, ('orphans',)):
                 for clo, m in closure_bindings(c.term):
-                    cb = facts.by_uid.get(clo[1])
+                    cb = facts.cb(clo[1])
                     cr = subst(interp(facts, cb).ret, m)
                     if any(seen(st) for st in subterms(drop_lv(cr)) if st[0] == 'call'):
                         filt.append(bb)
@@ -334,7 +334,7 @@ def mk_read(ctx):
             if param_path(base) == (1, ('roots',)) and not (set(iter_adaptors(src)) & LOSSY_ADAPTORS):
                 for n, cl in clo:
                     if cl and cl[0] == 'closure':
-                        cb = facts.by_uid.get(cl[1])
+                        cb = facts.cb(cl[1])
                         m = {('upvar', k): v for k, v in enumerate(cl[2])}
                         cr = drop_lv(subst(interp(facts, cb).ret, m))
                         for st in subterms(cr):
